@@ -28,25 +28,45 @@ pub struct ThreadCase {
     pub defines: bool,
     /// what the workers allocate: 0 boxes+vectors, 1 closures, 2 hash maps, 3 strings
     pub garbage: u8,
+    /// an extra thread that assigns a global `updater` times (a world-stopping request from a thread
+    /// other than the main one); 0 = none
+    #[serde(default)]
+    pub updater: u64,
+    /// short-lived threads spawned and joined one after the other by the main thread while the
+    /// workers (and the updater) run
+    #[serde(default)]
+    pub churn: u64,
+    /// the main thread requests a full collection right after the last message arrived, while the
+    /// workers are exiting, and only then joins them
+    #[serde(default)]
+    pub collect_before_join: bool,
 }
 
 fn program(c: &ThreadCase) -> String {
     let k = c.workers.max(1);
     let tick = c.tick.max(2);
-    let garbage = match c.garbage % 4 {
+    // with an updater thread nothing else may stop the world (see below): no heap garbage, so no collection
+    let garbage = match if c.updater > 0 { 3 } else { c.garbage % 4 } {
         0 => "(vector i (box i))",
         1 => "((lambda (a) (lambda () (+ a i))) (box i))",
         2 => "(hash-insert (hash 'a (box i)) 'b (vector i))",
         _ => "(string-append (number->string i) \"x\")",
     };
     let mut s = String::new();
-    s.push_str("(define g0 0)\n");
+    // only one thread at a time may request world stops (concurrent requests from two threads deadlock on
+    // the unchanged tree, a listed finding): with an updater thread the main thread assigns and defines nothing
+    let main_stops = c.updater == 0;
+    s.push_str(if main_stops { "(define g0 0)\n" } else { "(define g0 1000000)\n" });
     s.push_str("(define (mk-tree d seed) (if (= d 0) (box seed) (vector (mk-tree (- d 1) (+ seed 1)) (box seed) (list (mk-tree (- d 1) (* seed 2))))))\n");
     s.push_str("(define (checksum t) (cond ((int? t) t) ((mutable-vector? t) (apply + (map checksum (mutable-vector->list t)))) ((pair? t) (apply + (map checksum t))) ((null? t) 0) (else (checksum (unbox t)))))\n");
     s.push_str(&format!(
         "(define (worker id iters out in feeds)\n  (let loop ((i 0) (acc 0) (fed 0) (keep (mk-tree 3 id)))\n    (if (= i iters)\n        (begin (channel/send out (list 'done id acc (checksum keep))) (list id acc))\n        (begin\n          {}\n          (when (= 0 (modulo i {})) (channel/send out (list 'tick id i)))\n          (if (and (= 1 (modulo i {})) (< fed feeds))\n              (let ((want (channel/recv in))) (channel/send out (list 'saw id want g0)) (loop (+ i 1) (+ acc (* i id)) (+ fed 1) keep))\n              (loop (+ i 1) (+ acc (* i id)) fed keep))))))\n",
         garbage, tick, tick
     ));
+    s.push_str("(define g1 0)\n(define (bump n) (if (= n 0) 'bump-done (begin (set! g1 (+ g1 1)) (bump (- n 1)))))\n");
+    if c.updater > 0 {
+        s.push_str(&format!("(define updater-thread (spawn-native-thread (lambda () (bump {}))))\n", c.updater));
+    }
     s.push_str("(define out (channels/new))\n");
     s.push_str(&format!("(define ins (list {}))\n", (0..k).map(|_| "(channels/new)".to_string()).collect::<Vec<_>>().join(" ")));
     s.push_str(&format!(
@@ -57,18 +77,30 @@ fn program(c: &ThreadCase) -> String {
     ));
     // the main thread feeds in ascending order; between feeds it defines globals and allocates
     for f in 1..=c.feeds {
-        s.push_str(&format!("(set! g0 {})\n(for-each (lambda (c) (channel/send (channels-sender c) {})) ins)\n", f, f));
-        if c.defines {
+        if main_stops {
+            s.push_str(&format!("(set! g0 {})\n", f));
+        }
+        s.push_str(&format!("(for-each (lambda (c) (channel/send (channels-sender c) {})) ins)\n", f));
+        if c.defines && main_stops {
             s.push_str(&format!("(define extra{} (vector {} (box {})))\n", f, f, f));
         }
+    }
+    if c.churn > 0 {
+        s.push_str(&format!(
+            "(define churn-sum (let loop ((i 0) (acc 0)) (if (= i {}) acc (loop (+ i 1) (+ acc (thread-join! (spawn-native-thread (lambda () (* i 2)))))))))\n",
+            c.churn
+        ));
+    } else {
+        s.push_str("(define churn-sum 0)\n");
     }
     let ticks_per = (c.iters + tick - 1) / tick;
     // a worker answers a feed at iterations 1, tick+1, ...: at most ceil((iters-1)/tick) of them
     let saw_per = if c.iters >= 2 { ((c.iters - 2) / tick + 1).min(c.feeds) } else { 0 };
     let total_msgs = k * (ticks_per + saw_per + 1);
     s.push_str("(define (drain n acc) (if (= n 0) (reverse acc) (drain (- n 1) (cons (channel/recv (channels-receiver out)) acc))))\n");
+    let collect = if c.collect_before_join && c.updater == 0 { "(#%gc-collect)\n" } else { "" };
     match c.join_order % 4 {
-        0 => s.push_str(&format!("(define msgs (drain {} '()))\n(define results (map thread-join! threads))\n", total_msgs)),
+        0 => s.push_str(&format!("(define msgs (drain {} '()))\n{}(define results (map thread-join! threads))\n", total_msgs, collect)),
         1 => s.push_str(&format!("(define msgs (drain {} '()))\n(define results (reverse (map thread-join! (reverse threads))))\n", total_msgs)),
         2 => s.push_str(&format!("(define msgs (drain {} '()))\n(define results (let loop ((ts threads) (acc '())) (if (null? ts) (reverse acc) (loop (cdr ts) (cons (thread-join! (car ts)) acc)))))\n", total_msgs)),
         _ => {
@@ -76,7 +108,12 @@ fn program(c: &ThreadCase) -> String {
             s.push_str(&format!("(define msgs-a (drain {} '()))\n(define extra-between (list (box 1) (vector 2)))\n(define msgs (append msgs-a (drain {} '())))\n(define results (map thread-join! threads))\n", half, total_msgs - half));
         }
     }
-    s.push_str("(list results msgs 0)\n");
+    if c.updater > 0 {
+        s.push_str("(define updater-result (thread-join! updater-thread))\n");
+    } else {
+        s.push_str("(define updater-result 'none)\n");
+    }
+    s.push_str("(list results msgs (list churn-sum updater-result g1))\n");
     s
 }
 
@@ -138,7 +175,9 @@ fn int(t: &T) -> Option<i64> {
 
 pub fn check(ctx: &Ctx, ws: &mut Workers, c: &ThreadCase, counting: bool, tag: &str) -> PropResult {
     let prog = program(c);
+    let mut off_ok = false;
     for cfg in [Config::jit_off(), Config::default_cfg()] {
+        let jit_on = cfg.0.is_empty();
         let shown = format!("config: {}\n{:?}\n{}", cfg.label(), c, prog);
         let mut attempt = 0;
         let r = loop {
@@ -149,7 +188,7 @@ pub fn check(ctx: &Ctx, ws: &mut Workers, c: &ThreadCase, counting: bool, tag: &
             }
             steps.push(Step::Eval { src: prog.clone() });
             let mut case = Case::new(steps);
-            case.timeout_ms = if c.period > 0 { 6_000 * attempt } else { 30_000 * attempt };
+            case.timeout_ms = if c.period > 0 { 6_000 * attempt } else if c.updater > 0 { 10_000 * attempt } else { 30_000 * attempt };
             case.mem_mb = 6000;
             let r = ws.run(&cfg, &case);
             ctx.stats.engine_runs.fetch_add(1, std::sync::atomic::Ordering::Relaxed);
@@ -162,7 +201,7 @@ pub fn check(ctx: &Ctx, ws: &mut Workers, c: &ThreadCase, counting: bool, tag: &
             End::Done => {}
             End::Watchdog => {
                 // the program needs well under a second; 30 s and then 60 s without finishing is a lack of progress
-                return Err(Failure::new(format!("{}:no-progress", tag), format!("{}\nthe program did not finish within the time limit (30 s, with forced collections 6 s) nor, on a second attempt, within twice that", shown)));
+                return Err(Failure::new(format!("{}:{}no-progress", tag, if jit_on && off_ok { "jitdiv:" } else { "" }), format!("{}\nthe program did not finish within the time limit (30 s, with forced collections 6 s) nor, on a second attempt, within twice that", shown)));
             }
             End::Oom => {
                 if counting {
@@ -246,11 +285,30 @@ pub fn check(ctx: &Ctx, ws: &mut Workers, c: &ThreadCase, counting: bool, tag: &
                 return bad("channel-loss", format!("worker {}: {} done messages, ticks up to {} (expected {} ticks)", id, done, next_tick, ticks_per));
             }
         }
+        // thread churn and the updater thread
+        {
+            let want = format!(
+                "(i:{} {} i:{})",
+                if c.churn > 0 { c.churn * (c.churn - 1) } else { 0 },
+                if c.updater > 0 { "y:\"bump-done\"" } else { "y:\"none\"" },
+                c.updater
+            );
+            let got3 = match &top[2] {
+                T::L(v) => format!("({})", v.iter().map(|t| if let T::A(a) = t { a.clone() } else { "?".into() }).collect::<Vec<_>>().join(" ")),
+                T::A(a) => a.clone(),
+            };
+            if got3 != want {
+                return bad("updater-or-churn", format!("(sum of the short-lived threads' results, updater result, final g1) = {}, expected {}", got3, want));
+            }
+        }
         let stale = st.hooks.get("stale_accesses").copied().unwrap_or(0);
         // (the free-list accounting hook compares a recount with a cached count that other threads
         // update while they allocate: it is only meaningful in single-threaded runs and not used here)
         if stale != 0 {
             return bad("heap-hooks", format!("stale heap handle accesses: {}", stale));
+        }
+        if !jit_on {
+            off_ok = true;
         }
         if counting && cfg.0.is_empty() {
             ctx.stats.class(&format!("workers:{}", c.workers));
@@ -288,8 +346,20 @@ fn periods(stress_only: bool) -> Vec<u64> {
 }
 
 pub fn case(stress_only: bool) -> impl Strategy<Value = ThreadCase> {
-    (1u64..=8, prop::sample::select(vec![50u64, 200, 600, 2000]), prop::sample::select(vec![7u64, 50, 120]), 0u64..6, prop::sample::select(periods(stress_only)), 0u8..4, any::<bool>(), 0u8..4)
-        .prop_map(|(workers, iters, tick, feeds, period, join_order, defines, garbage)| ThreadCase { workers, iters, tick, feeds, period, join_order, defines, garbage })
+    (1u64..=8, prop::sample::select(vec![50u64, 200, 600, 2000]), prop::sample::select(vec![7u64, 50, 120]), 0u64..6, prop::sample::select(periods(stress_only)), 0u8..4, any::<bool>(), 0u8..4, prop::sample::select(vec![0u64, 0, 0, 0, 0, 50, 300]), prop::sample::select(vec![0u64, 0, 10, 40]), any::<bool>())
+        .prop_map(|(workers, iters, tick, feeds, period, join_order, defines, garbage, updater, churn, collect_before_join)| ThreadCase {
+            workers,
+            iters: if updater > 0 { iters.min(600) } else { iters },
+            tick,
+            feeds,
+            period: if updater > 0 { 0 } else { period },
+            join_order,
+            defines,
+            garbage,
+            updater,
+            churn,
+            collect_before_join,
+        })
 }
 
 pub fn run(ctx: &Ctx, replay: Option<&str>, tag: &'static str, stress_only: bool, quick: u64, thorough: u64) -> i32 {
